@@ -7,7 +7,11 @@
 //!              `J <op> <args..>`  judge (a *specification* function is applied to an
 //!                                 implementation output; expected answer is on the impl side)
 mod common;
+mod ast;
+mod msops;
+mod c01;
 mod c05;
+mod c15;
 
 use std::env;
 
@@ -23,7 +27,9 @@ fn main() {
     let seed: u64 = args[4].parse().unwrap_or(1);
     let mut out = common::Out::new(outdir);
     match prop {
+        "C01" => c01::run(&mut out, thorough, seed),
         "C05" => c05::run(&mut out, thorough, seed),
+        "C15" => c15::run(&mut out, thorough, seed),
         _ => {
             eprintln!("unknown property {}", prop);
             std::process::exit(2);
